@@ -24,7 +24,7 @@ LEAN_MODULES = ["NiftyVerif.Core.Proto", "NiftyVerif.Model.Lanczos", "NiftyVerif
 DRIVER = "Driver/C34.lean"
 OBLIGATIONS = ["NiftyVerif.C34." + t for t in (
     "alpha_eq", "beta_eq", "basis_succ", "lanczos_relation", "lanczos_unit_norm", "lanczos_consecutive_orthogonal", "lanczos_orthonormal",
-    "lanczos_tridiagonal",
+    "lanczos_tridiagonal", "quadrature_exact_full_order", "quadrature_moments",
     "welford_merge", "welford_merge_init", "sylvester_logdet", "elbo_le_evidence", "elbo_tight", "elbo_closed_form",
     "resume_concat", "fullBatches_sum")]
 RULE = ("lanczos case = (SPD matrix of dimension 2..6 (12 thorough) with distinct eigenvalues, start vector, order ≤ n); "
@@ -33,7 +33,8 @@ RULE = ("lanczos case = (SPD matrix of dimension 2..6 (12 thorough) with distinc
         "of the expansion point); non-trivial = dimension ≥ 2; distinct by canonical case")
 TRUSTED_BASE = [
     "Lean 4.33 kernel + Mathlib; axioms propext/Classical.choice/Quot.sound only (audited every run)",
-    "spectral theory not formalised: Ritz values of T_n = VᵀAV are the eigenvalues; Gauss quadrature with n nodes is exact; "
+    "spectral theory not formalised beyond p(T) = Vᵀ p(A) V (quadrature_exact_full_order): that functions of a symmetric matrix "
+    "are polynomials in it on its finite spectrum, Ritz values of T_n = VᵀAV are the eigenvalues; "
     "numpy/scipy eigh, eigsh (executed, compared at small sizes only)",
     "Gaussian integrals: log Z = −H(m) − ½ log det D for the quadratic Hamiltonian; E_q[H] for a Gaussian q",
     "driver sqrt/log: 2^-99-accurate rational approximations (class T)",
